@@ -3,6 +3,7 @@ import ast
 
 from .. import bits as B_
 from ..astutil import aug_form, dotted, handler_names, method_call, stores
+from ..flow import unchanged_param
 from ..symexec import paths_of
 from ..cfg import cfg_of, fact_key, norm, walk_own
 from ..consteval import Scope, fold, fold_in
@@ -171,6 +172,23 @@ def check(ctx):
     wr = [(f.qualname, norm(s)) for f in m.mod(RD).all_funcs() for s in walk_own(f.node) if isinstance(s, (ast.Assign, ast.AugAssign)) and
           norm(s.targets[0] if isinstance(s, ast.Assign) else s.target).split('.')[-1] == ctr.split('.')[-1] and f.qualname not in ('_RadioDriverThread.run', '_RadioDriverThread.__init__')]
     ctx.inst('R7', run, 'no-other-counter-writers', not wr, 'other writers of the failure counter: %s' % wr)
+    # the report reaches the application's callback itself: connect() hands its link_error_callback argument to the thread as it got
+    # it (not wrapped, filtered or replaced), the thread stores it and calls it
+    tp = ini.params
+    ctx.need('link_error_callback' in tp, '_RadioDriverThread.__init__: link_error_callback parameter not found')
+    pos = tp.index('link_error_callback') - 1
+    conm = m.cls(RD, 'RadioDriver').method('connect')
+    gcn = cfg_of(conm)
+    mk = [(n, c) for n, c in gcn.find(lambda q: isinstance(q, ast.Call) and dotted(q.func) == '_RadioDriverThread')]
+    okcb = len(mk) == 1 and 'link_error_callback' in conm.params
+    if okcb:
+        n_, c_ = mk[0]
+        arg = c_.args[pos] if pos < len(c_.args) else next((k.value for k in c_.keywords if k.arg == 'link_error_callback'), None)
+        okcb = isinstance(arg, ast.Name) and arg.id == 'link_error_callback' and unchanged_param(gcn, n_, 'link_error_callback')
+    st_cb = [s_ for s_ in walk_own(ini.node) if isinstance(s_, ast.Assign) and norm(s_.targets[0]) == 'self._link_error_callback']
+    okcb = okcb and len(st_cb) == 1 and norm(st_cb[0].value) == 'link_error_callback' and unchanged_param(cfg_of(ini), cfg_of(ini).node_of(st_cb[0].value), 'link_error_callback')
+    ctx.inst('R7', conm, 'error-callback-unfiltered', okcb, 'the link error callback given to connect() is the one the radio thread calls: a wrapper that drops, '
+             'de-duplicates or rate-limits reports loses the report of a later outage')
     # ---- R8 ----------------------------------------------------------------------------------------
     flag_true = [n for n in g.nodes if n.kind == 'stmt' and isinstance(n.ast, ast.Assign) and isinstance(n.ast.value, ast.Constant) and n.ast.value.value is True and norm(n.ast.targets[0]).startswith('self.')]
     ctx.need(len(flag_true) == 1, 'run(): safelink enable site not found')
